@@ -33,6 +33,8 @@ mod plugin;
 mod rpc;
 mod store;
 mod tlv;
+#[cfg(any(kani, feature = "verif"))]
+mod verif_hooks;
 
 const NAME_CLTV_DELTA: &str = "trampoline-cltv-delta";
 const OPTION_CLTV_DELTA: DefaultIntegerConfigOption = ConfigOption::new_i64_with_default(
